@@ -96,7 +96,12 @@ def run_case(case, ch: Choices) -> RunResult:
         # ---- reference step: fresh everything
         root0 = os.path.join(base, "s0")
         tail_seed = ch.draw("lay.tails", 2 ** 16) if not p.get("corpus") else 11
-        m0 = worlds.materialize(world, root0, spart, qpart, tail_seed=tail_seed)
+        # (with a symlinked duplicate the unchanged generator fails - duplicate definitions - and must fail identically everywhere)
+        symlink_seed = None if p.get("corpus") else \
+            (ch.draw("lay.symlink", 2 ** 16) if spart and ch.chance("lay.symlink_on", 1, 12) else None)
+        if symlink_seed is not None or world.get("layout_symlink"):
+            res.bump("probe.schema_file_reachable_under_two_names")
+        m0 = worlds.materialize(world, root0, spart, qpart, tail_seed=tail_seed, symlink_seed=symlink_seed)
         r0 = genrun.run_child(root0, m0["argv"], m0["targets"], hashseed=0, clock=1_700_000_000.0)
         if r0.get("harness_failure"):
             raise RuntimeError("child failed: %s" % r0.get("child_stderr"))
@@ -123,14 +128,16 @@ def run_case(case, ch: Choices) -> RunResult:
                       "creation_seed": ch.draw("env.creation", 2 ** 20) if ch.chance("env.creation_on", 2, 3) else None,
                       "clock": 1_700_000_000.0 + ch.pick("env.clock", [0, 1, 86400 * 365, -10 ** 8]),
                       "prior": ch.weighted("env.prior", [("fresh", 3), ("over_existing", 3), ("twice", 2), ("crashed_prefix", 3),
-                                                         ("same_process_twice", 2), ("same_process_after_other", 2)]),
+                                                         ("same_process_twice", 2), ("same_process_after_other", 2),
+                                                         ("same_process_after_edit", 2)]),
                       "crash_at": None, "crash_kind": None}
                 if st["prior"] == "crashed_prefix":
                     st["crash_at"] = 1 + ch.draw("env.crash_at", max(1, writes0))
                     st["crash_kind"] = ch.pick("env.crash_kind", ["crash", "enospc", "eio", "torn", "torn", "empty"])
             envs.append(st)
             root = os.path.join(base, "s%d" % si)
-            m = worlds.materialize(world, root, spart, qpart, creation_order_seed=st["creation_seed"], tail_seed=tail_seed)
+            m = worlds.materialize(world, root, spart, qpart, creation_order_seed=st["creation_seed"], tail_seed=tail_seed,
+                                   symlink_seed=symlink_seed)
             target = m["targets"][0]
             prior = st["prior"]
             if ref["exit"] != 0 and prior in ("over_existing", "crashed_prefix", "twice"):
@@ -140,6 +147,15 @@ def run_case(case, ch: Choices) -> RunResult:
                 # one interpreter generates the same project twice (a build script, a watcher): the second generation is judged
                 pre_runs = [{"cwd": root, "argv": m["argv"]}] * (1 + (st.get("enum_seed") or 0) % 2)
                 res.bump("prior.same_process_twice")
+            elif prior == "same_process_after_edit":
+                # one interpreter generates from an earlier revision of these very files (into another target), the files are
+                # then rewritten in place to the revision under test, and the judged generation runs: it must equal a fresh
+                # generation of the revision under test
+                pre_runs = _edited_earlier_revision(world, root, m, st)
+                if pre_runs:
+                    res.bump("prior.same_process_after_edit")
+                else:
+                    prior = "fresh"
             elif prior == "same_process_after_other":
                 # one interpreter first generates another project, then this one
                 others = [w for w in corpus.all_worlds() if w["id"] != world.get("id")]
@@ -182,6 +198,10 @@ def run_case(case, ch: Choices) -> RunResult:
                 res.observations.append("same-process-step-timeout")
                 continue
             got = _outcome(r, root, target)
+            for pr_ in r.get("pre_runs") or []:
+                res.bump("pre_run.ok" if pr_.get("outcome") == "0" else "pre_run.failed")
+                if pr_.get("outcome") != "0":
+                    trace.append("step%d: earlier run in the same interpreter ended with %s" % (si, pr_.get("outcome")))
             res.bump("generations")
             if st["hashseed"] != 0:
                 res.bump("fault.hashseed_changed")
@@ -229,6 +249,46 @@ def run_case(case, ch: Choices) -> RunResult:
         genrun.rmtree(base)
 
 
+
+def _edited_earlier_revision(world, root, m, st):
+    """Rewrites some source files of the materialised project to an *earlier revision* (an extra enum in one schema file, an
+    extra field selection is not attempted) and points the configuration at another target; returns the pre_runs entry
+    that generates from that revision and then restores the files in place.  None if the project has no schema file."""
+    cfg_path = m["config_path"]
+    cfg_text = open(cfg_path, encoding="utf-8").read()
+    sp = os.path.join(root, m["cfg"].get("schema_path", ""))
+    files = []
+    if os.path.isdir(sp):
+        for dp, _dns, fns in os.walk(sp):
+            files += [os.path.join(dp, f) for f in fns if f.endswith((".graphql", ".graphqls", ".gql")) and not os.path.islink(os.path.join(dp, f))]
+    elif os.path.isfile(sp):
+        files = [sp]
+    files.sort()
+    if not files:
+        return None
+    victim = files[(st.get("hashseed") or 0) % len(files)]
+    orig = open(victim, encoding="utf-8").read()
+    earlier = orig.rstrip("\n") + "\n\nenum ZzEarlierRevisionOnly {\n  GONE_A\n  GONE_B\n}\n"
+    if world["strategy"] == "client":
+        earlier_cfg = cfg_text + ""
+        import re as _re
+        if "target_package_name" in m["cfg"]:
+            earlier_cfg = _re.sub(r'(?m)^target_package_name\s*=.*$', 'target_package_name = "earlier_revision_pkg"', cfg_text)
+        else:
+            earlier_cfg = cfg_text.replace("[tool.ariadne-codegen]", '[tool.ariadne-codegen]\ntarget_package_name = "earlier_revision_pkg"', 1)
+    else:
+        import re as _re
+        suffix = os.path.splitext(m["cfg"]["target_file_path"])[1]
+        earlier_cfg = _re.sub(r'(?m)^target_file_path\s*=.*$', 'target_file_path = "out/earlier_revision%s"' % suffix, cfg_text)
+    if earlier_cfg == cfg_text:
+        return None
+    with open(victim, "w", encoding="utf-8") as f:
+        f.write(earlier)
+    with open(cfg_path, "w", encoding="utf-8") as f:
+        f.write(earlier_cfg)
+    return [{"cwd": root, "argv": m["argv"],
+             "then_write": [{"path": victim, "text": orig}, {"path": cfg_path, "text": cfg_text}]}]
+
 def _mixes_two(world) -> bool:
     import re
     for f in world["frags"]:
@@ -272,9 +332,9 @@ def plan(tier, base_seed) -> Plan:
     forced_sets = []
     for i, hs in enumerate(HASHSEEDS[1:6] if tier == "quick" else HASHSEEDS[1:]):
         forced_sets.append({"hashseed": hs, "enum_seed": 100 + i, "creation_seed": 7 + i, "clock": 1_700_000_000.0 + i,
-                            "prior": ["crashed_prefix", "over_existing", "same_process_twice", "same_process_after_other", "fresh", "crashed_prefix", "twice",
-                                      "crashed_prefix"][i % 8],
-                            "crash_at": [3, 0, 0, 0, 0, 8, 0, 11][i % 8], "crash_kind": ["torn", "crash", "crash", "crash", "crash", "empty", "crash", "enospc"][i % 8]})
+                            "prior": ["crashed_prefix", "over_existing", "same_process_twice", "same_process_after_other", "same_process_after_edit",
+                                      "crashed_prefix", "twice", "fresh"][i % 8],
+                            "crash_at": [3, 0, 0, 0, 0, 8, 0, 0][i % 8], "crash_kind": ["torn", "crash", "crash", "crash", "crash", "empty", "crash", "crash"][i % 8]})
     n_corpus = len(cws)
     # thorough: the previous generation is torn at EVERY write of a corpus world, systematically (kinds alternate)
     sweeps = []
